@@ -42,28 +42,12 @@ def _safe(name):
 # worker side
 
 
-def verify_unit(unit):
-    """Verify one unit (function contract or lemma); replay failures natively.  Returns a
-    JSON-able dict."""
-    from . import verify, native
-    kind, name = unit
+PART_BUDGET = 48        # paths per subtree job before it hands the rest back
+FIRST_BUDGET = 6        # paths explored by the first job of a unit before it hands out subtrees
+
+
+def _attach_replays(kind, name, d):
     reg = _REG
-    v = verify.Verifier(reg, goal_timeout_ms=_OPTS.get('timeout_ms', QUICK_TIMEOUT_MS),
-                        keep_smt2=_OPTS.get('keep_smt2', False), pid=_OPTS.get('pid'))
-    t0 = time.time()
-    try:
-        if kind == 'function':
-            c = reg.fns[name]
-            res = v.verify_function(c)
-        else:
-            lem = reg.lemmas[name]
-            res = v.verify_lemma(lem)
-    except Exception as e:
-        return dict(name=name, kind=kind, crash=traceback.format_exc(), obls={}, paths=0,
-                    covered=0, engine_error=f'crash: {e}', secs=time.time() - t0, solver_secs=0,
-                    src_sha=None, exits={}, queries=0, used=[])
-    d = res.to_dict()
-    # replay failed obligations against the real code
     for oname, o in d['obls'].items():
         raw = None
         if o['ce'] is not None:
@@ -76,7 +60,98 @@ def verify_unit(unit):
                     o['replay'] = replay_lemma(reg, reg.lemmas[name], oname, raw)
             except Exception:
                 o['replay'] = dict(verdict='replay-error', detail=traceback.format_exc()[-1500:])
+
+
+def _crash(name, kind, t0, e):
+    return dict(name=name, kind=kind, crash=traceback.format_exc(), obls={}, paths=0, covered=0,
+                engine_error=f'crash: {e}', secs=time.time() - t0, solver_secs=0, src_sha=None,
+                exits={}, queries=0, used=[], pending={})
+
+
+def verify_unit(unit):
+    """First job of a unit: explores FIRST_BUDGET paths of the function contract (and of each of
+    its scenario variants) or the whole lemma; unexplored subtrees come back as `pending`
+    {variant suffix: [decision scripts]} for other processes.  Failures are replayed natively."""
+    from . import verify
+    kind, name = unit
+    reg = _REG
+    v = verify.Verifier(reg, goal_timeout_ms=_OPTS.get('timeout_ms', QUICK_TIMEOUT_MS),
+                        keep_smt2=_OPTS.get('keep_smt2', False), pid=_OPTS.get('pid'))
+    t0 = time.time()
+    try:
+        if kind == 'function':
+            c = reg.fns[name]
+            d = None
+            pending = {}
+            for suffix, c2 in v.variant_contracts(c):
+                r = v._verify_function(c2, suffix, budget=FIRST_BUDGET, finalize=False)
+                dd = r.to_dict()
+                if r.pending:
+                    pending[suffix] = r.pending
+                d = dd if d is None else merge_unit_dicts(d, dd)
+            d['pending'] = pending
+        else:
+            d = v.verify_lemma(reg.lemmas[name]).to_dict()
+            d['pending'] = {}
+    except Exception as e:
+        return _crash(name, kind, t0, e)
+    _attach_replays(kind, name, d)
     return d
+
+
+def verify_part(job):
+    """Explores the subtrees below the given decision scripts of one (variant of a) function."""
+    from . import verify
+    name, suffix, scripts = job
+    reg = _REG
+    v = verify.Verifier(reg, goal_timeout_ms=_OPTS.get('timeout_ms', QUICK_TIMEOUT_MS),
+                        keep_smt2=_OPTS.get('keep_smt2', False), pid=_OPTS.get('pid'))
+    t0 = time.time()
+    try:
+        c2 = dict(v.variant_contracts(reg.fns[name]))[suffix]
+        r = v._verify_function(c2, suffix, stack=scripts, budget=PART_BUDGET, finalize=False)
+        d = r.to_dict()
+        d['pending'] = {suffix: r.pending} if r.pending else {}
+    except Exception as e:
+        return _crash(name, 'function', t0, e)
+    _attach_replays('function', name, d)
+    return d
+
+
+_RANK = {'proved': 0, 'unknown': 1, 'failed': 2}
+
+
+def merge_unit_dicts(a, b):
+    """Combine the results of two explorations of the same unit."""
+    out = dict(a)
+    out['paths'] = a['paths'] + b['paths']
+    out['covered'] = a['covered'] + b['covered']
+    out['secs'] = round(a['secs'] + b['secs'], 3)
+    out['solver_secs'] = round(a['solver_secs'] + b['solver_secs'], 3)
+    out['queries'] = a['queries'] + b['queries']
+    out['used'] = sorted(set(a.get('used', [])) | set(b.get('used', [])))
+    out['engine_error'] = a.get('engine_error') or b.get('engine_error')
+    ex = dict(a.get('exits', {}))
+    for k, n in b.get('exits', {}).items():
+        ex[k] = ex.get(k, 0) + n
+    out['exits'] = ex
+    obls = dict(a['obls'])
+    for k, o in b['obls'].items():
+        if k not in obls:
+            obls[k] = o
+            continue
+        cur = obls[k]
+        best = o if _RANK[o['status']] > _RANK[cur['status']] else cur
+        other = cur if best is o else o
+        m = dict(best)
+        m['checks'] = cur['checks'] + o['checks']
+        m['secs'] = round(cur['secs'] + o['secs'], 3)
+        m['backends'] = sorted(set(cur['backends']) | set(o['backends']))
+        if not m.get('smt2'):
+            m['smt2'] = other.get('smt2')
+        obls[k] = m
+    out['obls'] = obls
+    return out
 
 
 def _lower_args(reg, c, raw):
@@ -417,28 +492,46 @@ def run_property(pid, tier='quick', seed=0, extra_checks=None, modules=None, job
     done = set()
     ctxm = mp.get_context('fork')
     with cf.ProcessPoolExecutor(max_workers=jobs, mp_context=ctxm) as ex:
-        while pending:
-            batch = [u for u in pending if u not in done]
-            pending = []
-            futs = {ex.submit(verify_unit, u): u for u in batch}
-            for u in batch:
-                done.add(u)
-            for f in cf.as_completed(futs):
-                u = futs[f]
+        futs = {}
+
+        def submit_unit(u):
+            done.add(u)
+            futs[ex.submit(verify_unit, u)] = ('unit', u)
+
+        for u in pending:
+            submit_unit(u)
+        while futs:
+            for f in cf.as_completed(list(futs)):
+                kind_, u = futs.pop(f)
                 try:
                     d = f.result()
                 except Exception as e:
                     d = dict(name=u[1], kind=u[0], obls={}, paths=0, covered=0,
                              engine_error=f'worker crashed: {e!r}', secs=0, solver_secs=0,
-                             src_sha=None, exits={}, queries=0, used=[])
-                results[u] = d
+                             src_sha=None, exits={}, queries=0, used=[], pending={})
+                results[u] = d if u not in results else merge_unit_dicts(results[u], d)
+                # unexplored subtrees of this unit: one job per decision script
+                for suffix, scripts in d.get('pending', {}).items():
+                    for sc in scripts:
+                        futs[ex.submit(verify_part, (u[1], suffix, [sc]))] = ('part', u)
                 # closure: contracts relied on at call sites must be verified in this run too
                 for q in d.get('used', []):
                     c = reg.fns.get(q)
                     if c is not None and c.mode == 'contract' and c.verify:
                         uu = ('function', q)
-                        if uu not in done and uu not in pending:
-                            pending.append(uu)
+                        if uu not in done:
+                            submit_unit(uu)
+                break
+        # vacuity guards on the merged results
+        from . import verify as _vf
+        vv = _vf.Verifier(reg, pid=pid)
+        for u, d in results.items():
+            if u[0] == 'function' and not d.get('engine_error'):
+                for suffix, c2 in vv.variant_contracts(reg.fns[u[1]]):
+                    err = _vf.function_guards(c2, suffix, d.get('exits', {}), d['obls'])
+                    if err:
+                        d['engine_error'] = err
+                        break
         # bounded stand-in / run-time contract cross-check on the real code
         n_fuzz = 2000 if tier == 'thorough' else 150
         fuzz_jobs = [(u[1], n_fuzz, seed + i) for i, u in enumerate(sorted(results))
